@@ -12,7 +12,9 @@ package c15
 import (
 	"encoding/json"
 	"fmt"
+	"os"
 	"sort"
+	"strconv"
 	"strings"
 	"testing"
 	"time"
@@ -226,7 +228,10 @@ func body(c *vk.Ctx) {
 		replay(c, f)
 		return
 	}
-	cfg := vk.Pick(c, config{MaxDepth: 4}, config{MaxDepth: 7, EarlyW: true, HuY: true, Crash: true})
+	cfg := vk.Pick(c, config{MaxDepth: 4}, config{MaxDepth: 6, EarlyW: true, HuY: true, Crash: true})
+	if v, err := strconv.Atoi(os.Getenv("C15_DEPTH")); err == nil && v > 0 {
+		cfg.MaxDepth = v // experimentation only
+	}
 	c.Bound("max_depth", cfg.MaxDepth)
 	c.Bound("alphabet", fmt.Sprintf("%+v", cfg))
 	c.Bound("objects", "X, Y ordinary; Z derived child of X")
